@@ -18,7 +18,7 @@ ASSUMPTIONS = ["termination is not part of the property: runs cut by the RNG-dra
                "journal prefix is still checked)",
                "clause (C) is suspended for the rest of a history once the OPEN known finding C11-corner-motif-id has "
                "manifested in it (ids are then scrambled by that defect); single-swap histories keep it fully sensitive"]
-BUDGET = {"quick": (16, 120), "thorough": (16, 1500)}
+BUDGET = {"quick": (16, 120), "thorough": (16, 3000)}
 SHRINK_IN_QUICK = False
 
 
